@@ -145,6 +145,10 @@ func (container *IKEPayloadContainer) Decode(nextPayload uint8, b []byte) error 
 		case TypeTSr:
 			payload = new(TrafficSelectorResponder)
 		case TypeSK:
+			// RFC 7296 3.14: the Encrypted payload must be the last payload of the message
+			if len(b) != int(payloadLength) {
+				return errors.Errorf("DecodePayload(): Encrypted payload is not the last payload")
+			}
 			encryptedPayload := new(Encrypted)
 			encryptedPayload.NextPayload = b[0]
 			payload = encryptedPayload
